@@ -218,8 +218,24 @@ func GenL234(t *rapid.T) L234 {
 	return p
 }
 
+// GenV6 draws 16 address octets: well-known forms, random octets, and addresses whose eight groups are zero or not
+// group by group (several zero runs, equally long ones, runs at either end: where the text form has a choice to make).
+func GenV6(t *rapid.T, label string) Hex { return genV6(t, label) }
+
 func genV6(t *rapid.T, label string) Hex {
-	switch rapid.IntRange(0, 4).Draw(t, label+"kind") {
+	switch rapid.IntRange(0, 7).Draw(t, label+"kind") {
+	case 5, 6:
+		b := make([]byte, 16)
+		for g := 0; g < 8; g++ {
+			switch rapid.IntRange(0, 3).Draw(t, label+"group") {
+			case 0, 1: // zero group
+			case 2:
+				b[2*g+1] = rapid.SampledFrom([]byte{1, 2, 0x10, 0xff}).Draw(t, label+"low")
+			default:
+				b[2*g], b[2*g+1] = rapid.Byte().Draw(t, label+"hi"), rapid.Byte().Draw(t, label+"lo")
+			}
+		}
+		return b
 	case 0:
 		return Hex{0, 0, 0, 0, 0, 0, 0, 0, 0, 0, 0, 0, 0, 0, 0, 1}
 	case 1:
